@@ -457,6 +457,80 @@ func closureWrites(fset *token.FileSet, files map[string]*ast.File) []string {
 func receiverWrites(fset *token.FileSet, files map[string]*ast.File) []string {
 	var out []string
 	methods := map[string]bool{"process": true, "validate": true, "Parse": true, "Validate": true}
+	// ... and every function or method of these files REACHABLE from them (call graph by name): a helper
+	// called from process/validate that fills a cache on the schema object is a write by the execution
+	calls := map[string]map[string]bool{}
+	defined := map[string]bool{}
+	for _, f := range files {
+		for _, d := range f.Decls {
+			fd, ok := d.(*ast.FuncDecl)
+			if !ok || fd.Body == nil {
+				continue
+			}
+			defined[fd.Name.Name] = true
+			if calls[fd.Name.Name] == nil {
+				calls[fd.Name.Name] = map[string]bool{}
+			}
+			recvName := ""
+			if fd.Recv != nil && len(fd.Recv.List) > 0 && len(fd.Recv.List[0].Names) > 0 {
+				recvName = fd.Recv.List[0].Names[0].Name
+			}
+			rootOf := func(e ast.Expr) string {
+				for {
+					switch x := e.(type) {
+					case *ast.SelectorExpr:
+						e = x.X
+					case *ast.IndexExpr:
+						e = x.X
+					case *ast.StarExpr:
+						e = x.X
+					case *ast.ParenExpr:
+						e = x.X
+					case *ast.Ident:
+						return x.Name
+					default:
+						return ""
+					}
+				}
+			}
+			ast.Inspect(fd.Body, func(n ast.Node) bool {
+				if c, ok := n.(*ast.CallExpr); ok {
+					switch fn := c.Fun.(type) {
+					case *ast.Ident:
+						calls[fd.Name.Name][fn.Name] = true
+					case *ast.SelectorExpr:
+						// only calls on the receiver (v.helper(), v.schema.process()): a method of the same name
+						// on some other value (reflect's Len, Set, ...) is not a call of this package's method
+						if recvName != "" && rootOf(fn.X) == recvName {
+							calls[fd.Name.Name][fn.Sel.Name] = true
+						}
+					case *ast.IndexExpr: // generic instantiation f[T](...)
+						if id, ok := fn.X.(*ast.Ident); ok {
+							calls[fd.Name.Name][id.Name] = true
+						}
+					}
+				}
+				return true
+			})
+		}
+	}
+	reach := map[string]bool{"primitiveProcessor": true, "primitiveValidator": true}
+	for m := range methods {
+		reach[m] = true
+	}
+	for changed := true; changed; {
+		changed = false
+		for fn := range reach {
+			for callee := range calls[fn] {
+				if defined[callee] && !reach[callee] {
+					reach[callee] = true
+					changed = true
+				}
+			}
+		}
+	}
+	// calls that mutate a field in place (sync/atomic values, sync.Map, sync.Once)
+	mutators := map[string]bool{"Store": true, "Swap": true, "CompareAndSwap": true, "LoadOrStore": true, "LoadAndDelete": true, "Delete": true, "Add": true, "Do": true, "Clear": true}
 	for fname, f := range files {
 		pkgVars := map[string]bool{}
 		for _, d := range f.Decls {
@@ -475,7 +549,7 @@ func receiverWrites(fset *token.FileSet, files map[string]*ast.File) []string {
 			}
 			isMethod := fd.Recv != nil && methods[fd.Name.Name]
 			isPrim := fd.Name.Name == "primitiveProcessor" || fd.Name.Name == "primitiveValidator"
-			if !isMethod && !isPrim {
+			if !isMethod && !isPrim && !(reach[fd.Name.Name] && !methods[fd.Name.Name]) {
 				continue
 			}
 			recv := ""
@@ -526,6 +600,16 @@ func receiverWrites(fset *token.FileSet, files map[string]*ast.File) []string {
 					r := root(s.X)
 					if (r != "" && r == recv) || (pkgVars[r] && !locals[r]) {
 						out = append(out, fmt.Sprintf("%s:%s: %s", filepath.Base(fname), fd.Name.Name, exprString(s.X)))
+					}
+				case *ast.CallExpr:
+					// recv.field.Store(...), pkgVar.Store(...): in-place mutation through a method
+					if sel, ok := s.Fun.(*ast.SelectorExpr); ok && mutators[sel.Sel.Name] {
+						if _, direct := sel.X.(*ast.Ident); !direct { // recv.Store(...) would be a method of the schema itself
+							r := root(sel.X)
+							if (r != "" && r == recv) || (pkgVars[r] && !locals[r]) {
+								out = append(out, fmt.Sprintf("%s:%s: %s.%s()", filepath.Base(fname), fd.Name.Name, exprString(sel.X), sel.Sel.Name))
+							}
+						}
 					}
 				case *ast.RangeStmt:
 					if s.Tok == token.DEFINE {
@@ -971,7 +1055,7 @@ func (f *Facts) lean() string {
 	}
 	s.WriteString("]\n\n")
 	fmt.Fprintf(&s, "/-- writes inside function literals (test / transform / option / coercer closures) to captured or package-level variables -/\ndef closureWrites : List String := %s\n\n", leanStrList(f.ClosureWrites))
-	fmt.Fprintf(&s, "/-- writes rooted at a schema receiver or package variable inside process/validate/Parse/Validate -/\ndef schemaWrites : List String := %s\n\n", leanStrList(f.Writes))
+	fmt.Fprintf(&s, "/-- writes rooted at a schema receiver or package variable — assignments, inc/dec and in-place mutator calls (Store, Swap, LoadOrStore, Do, ...) on receiver fields — inside process/validate/Parse/Validate and every function of the schema files reachable from them -/\ndef schemaWrites : List String := %s\n\n", leanStrList(f.Writes))
 	srcOf := func(p string) string {
 		switch p {
 		case "Query":
